@@ -412,6 +412,16 @@ package keyvalue
 //@        implies(src != nil && world() == old(world()), srcData(src) == old(srcData(src)) && srcDataErr(src) == old(srcDataErr(src)) && srcMode(src) == old(srcMode(src)) &&
 //@        srcMTime(src) == old(srcMTime(src)) && srcOK(src))
 
+//@ func firstOpErr(results []OpResult) (err error)
+//@   props C14
+//@   loop 1 invariant "none-before" rangeindex >= -1 && rangeindex < max(len(results), 1) && (len(results) > 0 || rangeindex == -1) && forall(i, 0, rangeindex + 1, results[i].Err == nil)
+//@   ensures "none" implies(err == nil, forall(i, 0, len(results), results[i].Err == nil))
+//@   ensures "some" implies(forall(i, 0, len(results), results[i].Err == nil), err == nil)
+//@   ensures "head" implies(len(results) > 0 && results[0].Err != nil, err == results[0].Err)
+//@   ensures "second" implies(len(results) > 1 && results[0].Err == nil && results[1].Err != nil, err == results[1].Err)
+//@   pure
+//@   nopanic
+
 // setFile: one read-write transaction holding a single Set. FS operations validate the path before they get here.
 //@ func (fs *FS) setFile(path string, file FileRecord) (err error)
 //@   props C14 C01 C03 C17
